@@ -170,7 +170,11 @@ func c05Handle(st *c05State, marker string, rq interface{}, reply func(r *res.Re
 	}
 }
 
-func c05Register(s *res.Service, specs []c05HandlerSpec, st *c05State) {
+func c05Register(s *res.Service, specs []c05HandlerSpec, st *c05State, mounted bool) {
+	// mounted: the patterns below "a" are registered on a Mux of their own that is mounted at
+	// "a" - the same routes, so the same handler and parameters for every request, also for
+	// one that enters the mounted Mux but is served by a pattern outside of it
+	var sub *res.Mux
 	// option values made once and used, as first call/auth option, for every pattern that
 	// has methods of its own (an application's list of common options): what one pattern
 	// registers next to them stays that pattern's
@@ -221,7 +225,23 @@ func c05Register(s *res.Service, specs []c05HandlerSpec, st *c05State) {
 				c05Handle(st, m, r, func(r *res.Request) { r.OK(m) })
 			}))
 		}
-		s.Handle(sp.Pattern, opts...)
+		switch {
+		case mounted && sp.Pattern == "a":
+			if sub == nil {
+				sub = res.NewMux("")
+			}
+			sub.Handle("", opts...)
+		case mounted && strings.HasPrefix(sp.Pattern, "a."):
+			if sub == nil {
+				sub = res.NewMux("")
+			}
+			sub.Handle(sp.Pattern[2:], opts...)
+		default:
+			s.Handle(sp.Pattern, opts...)
+		}
+	}
+	if sub != nil {
+		s.Mount("a", sub)
 	}
 }
 
@@ -299,7 +319,7 @@ func c05Reference(specs []c05HandlerSpec, subject string) (marker, code string, 
 	return "", "", true, rname, method, params, candidates
 }
 
-var c05PatternPool = []string{"a", "a.set", "a.$id", "a.>", "a.$id.set", "a.$id.$sub", "b", "b.*", "a.new", "a.$id.new", "$any", "", ">", ""}
+var c05PatternPool = []string{"a", "a.set", "a.$id", "a.>", "a.$id.set", "a.$id.$sub", "b", "b.*", "a.new", "a.$id.new", "$any", "", ">", "", "$any.$id", "$any.x.$sub"}
 var c05RNames = []string{"test.a", "test.a.set", "test.a.x", "test.a.x.set", "test.a.x.y", "test.a.x.y.z", "test.b", "test.b.set", "test", "test.a.new", "test.a.x.new", "test.q", "test.a.*",
 	// reach the service only when it owns more than its own name (every third configuration owns ">")
 	"test_a", "testxa.set", "testsa.x", "tes.a", "testa", "other.a", "test_a.x",
@@ -526,7 +546,7 @@ func c05Run(c *core.Ctx, b core.Batch) {
 		specs := c05RandSpecs(r)
 		st := &c05State{outcome: "marker"}
 		rg := newRig("test", func(s *res.Service) {
-			c05Register(s, specs, st)
+			c05Register(s, specs, st, cfgi%4 >= 2)
 			if cfgi%3 == 2 {
 				s.SetOwnedResources([]string{">"}, []string{">"})
 			}
